@@ -700,10 +700,22 @@ def r_validate_leaps(chk, P, tier):
     zr = [f["name"] for f in P.adts[T + "timezone::TimeZoneRef"]["variants"][0]["fields"]]
     f_ls = zr.index("leap_seconds")
     loops = [l for l in counted_loops(P, fn) if l["slice"] == (1, (f_ls,))]
-    chk.expect(len(loops) == 1 and loops[0]["ok"], "counting loop over leap_seconds", "no loop of the shape `c = 0; while c < self.leap_seconds.len() { ..; c += 1 }` found in validate()", loc=P.loc(fn))
-    if len(loops) != 1:
+    head = loops[0]["head"] if len(loops) == 1 and loops[0]["ok"] else None
+    if head is None:
+        # second idiom: an iterator over the table (`for pair in self.leap_seconds.windows(2)`, `.iter()`): the block that creates it takes the loop head's place
+        from rules import _copies, _slice_origin
+        copies = _copies(mir)
+        for b, blk in enumerate(mir["blocks"]):
+            t = blk["t"]
+            if blk.get("cleanup") or t["k"] != "call" or not t["args"]:
+                continue
+            name = t["callee"].get("resolved") or t["callee"].get("def") or ""
+            a = t["args"][0]
+            if name.split("::")[-1] in ("windows", "iter", "chunks", "array_windows") and a.get("k") in ("copy", "move") and _slice_origin(mir, copies, a["pl"]) == (1, (f_ls,)):
+                head = b
+    chk.expect(head is not None, "loop over leap_seconds", "no loop over self.leap_seconds found in validate() (neither a counting loop nor windows() / iter())", loc=P.loc(fn))
+    if head is None:
         return
-    head = loops[0]["head"]
     oks = [b for b, blk in enumerate(mir["blocks"]) if not blk.get("cleanup") and any(
         st["k"] == "assign" and st["pl"]["l"] == 0 and not st["pl"]["p"] and st["rv"]["k"] == "agg" and st["rv"].get("variant") == "Ok" for st in blk["s"])]
     if not oks:
